@@ -192,7 +192,7 @@ def r13_1(ctx):
         ctx.ob(f"exit1:message:{_exit_key(v, n)}", ok, v.site(n), f"preceded by stderr line {msg[-1]!r}" if ok else "exit(1) without an 'xt error' line on stderr")
     # (e) every fallible step diverges to exit(1) with a message naming the input
     fallible = [("open", n, t) for n, b, t in v.file_open] + [("translate:" + _variant_key(t), n, t) for n, b, t in v.translate] + [("flush", n, t) for n, b, t in v.flush]
-    ctx.ob("fallible-steps", len(fallible) >= 5, site(v.main), f"{len(fallible)} fallible step(s): File::open, translate_*, flush")
+    ctx.ob("fallible-steps", len(fallible) >= 3, site(v.main), f"{len(fallible)} fallible step(s): File::open, translate_*, flush")
     named_w = [(n, tmpl, dts) for n, s_, tmpl, dts in v.writes() if s_ == "stderr" and tmpl]
     for kind, n, t in fallible:
         inspected, starts = v.err_starts(n, t)
